@@ -355,6 +355,7 @@ type kase struct {
 	cnt        map[string]int
 	strong     []string // strong clauses exercised
 	faultArmed bool     // a fault or stall was injected in this case
+	phase2Hit  bool     // the prefetch failed because its decompress phase was failed by the registry
 }
 
 func newCase(r *vf.Run, idx int, race bool, rng *prng.R) *kase {
@@ -400,6 +401,16 @@ func newCase(r *vf.Run, idx int, race bool, rng *prng.R) *kase {
 	}
 	if cfg.Scenario == "bgfetch" && rng.Chance(1, 2) {
 		cfg.PrioBursts = rng.Pick(3, 20, 200) // upper bound; the bursts stop when BackgroundFetch returns
+	}
+	if c.ls.Landmark == lx.LmNone && (cfg.Scenario == "clean" || cfg.Scenario == "fault") && rng.Chance(2, 3) && size > 4000 {
+		// "phase2": the registry fails exactly in the second (decompress) phase of a prefetch
+		// whose configured size ends inside a file, then recovers; BackgroundFetch follows
+		cfg.Scenario, cfg.FaultMode = "fault", "phase2"
+		cfg.BlobChunk = int64(rng.Pick(256, 1000))
+		cfg.PrefetchChunk = int64(rng.Pick(0, 0, 300))
+		cfg.PrefetchSize = size/5 + rng.Int63n(size/2)
+		cfg.FaultK = (cfg.PrefetchSize/cfg.BlobChunk + 1) * cfg.BlobChunk // alignUp(size, registry chunk)
+		cfg.ThenBG, cfg.Callers = true, 1
 	}
 	if cfg.Probe && c.ls.Landmark == lx.LmPrefetch {
 		// A' is only informative when the http cache cannot serve the head of the blob from
@@ -550,6 +561,14 @@ func (f *injector) script(q *memreg.Request) memreg.Behaviour {
 			f.once.Do(func() { close(f.reached) })
 			return memreg.Behaviour{Stall: f.release, Label: "stall-release"}
 		}
+	case "phase2":
+		// fail what prefetch asks for AFTER its range request: on a layer without landmark
+		// blob.Cache(0, size) only asks for chunks below alignUp(size); anything at or beyond
+		// f.k is the decompress phase fetching the rest of a file that straddles the range end
+		if q.Ranges[0][0] >= f.k {
+			f.hits.Add(1)
+			return memreg.Behaviour{Status: 500, Label: "fault-phase2"}
+		}
 	case "err":
 		if n == f.k {
 			f.hits.Add(1)
@@ -562,6 +581,21 @@ func (f *injector) script(q *memreg.Request) memreg.Behaviour {
 		}
 	}
 	return memreg.Behaviour{}
+}
+
+// slowdown: every data request for the digest takes 2 ms longer; reached is closed at the first.
+type slowdown struct {
+	dgst    string
+	reached chan struct{}
+	once    sync.Once
+}
+
+func (f *slowdown) script(q *memreg.Request) memreg.Behaviour {
+	if q.Digest != f.dgst || !lx.IsData(q) {
+		return memreg.Behaviour{}
+	}
+	f.once.Do(func() { close(f.reached) })
+	return memreg.Behaviour{Delay: 2 * time.Millisecond, Label: "slow"}
 }
 
 // ---------------------------------------------------------------------------
@@ -742,8 +776,12 @@ func (c *kase) prefetchPhase() bool {
 	c.count("prefetch_requests", len(log))
 	if perr != nil {
 		switch {
-		case hits > 0 && (c.cfg.FaultMode == "err" || c.cfg.FaultMode == "500"):
+		case hits > 0 && (c.cfg.FaultMode == "err" || c.cfg.FaultMode == "500" || c.cfg.FaultMode == "phase2"):
 			c.count("prefetch_failed_under_fault", 1)
+			if c.cfg.FaultMode == "phase2" {
+				c.phase2Hit = true
+				c.count("prefetch_failed_in_decompress_phase", 1)
+			}
 		case c.knownDotDefect(perr):
 			c.violate("prefetch-fails:self-child-dot@db", fmt.Sprintf("Prefetch fails on a healthy registry: db metadata store + tar with an explicit root entry: %v", perr))
 		default:
@@ -1047,19 +1085,69 @@ func (c *kase) bgPhase() {
 	mark := lx.Mark(c.w.Reg)
 	n := c.cfg.Callers
 	errs := make([]error, n)
-	var wg sync.WaitGroup
-	for i := 0; i < n; i++ {
-		wg.Add(1)
-		go func(i int) { defer wg.Done(); errs[i] = c.l.BackgroundFetch() }(i)
+	// Every caller that gets nil has been told "the background fetch completed": the FIRST nil
+	// return of any caller is taken as completion and the registry is switched off at that
+	// very moment (before anything else), so that a caller released while another one is
+	// still downloading is exposed by clause D. Only without an injected fault: there a
+	// caller that lost the race for the single execution legitimately sees nil while the
+	// executing one reports the injected failure. With several callers and no fault the
+	// later callers are started once the first one's download is under way (first data
+	// request seen; data requests are slowed down by 2 ms each so that there is a "while").
+	firstNil := inj == nil
+	type bres struct {
+		i   int
+		err error
 	}
-	bdone := make(chan struct{})
-	go func() { wg.Wait(); close(bdone) }()
-	select {
-	case <-bdone:
-	case <-time.After(5 * time.Minute):
-		c.r.Inconclusive("watchdog: BackgroundFetch did not return")
-		close(stopPrio)
-		return
+	results := make(chan bres, n)
+	call := func(i int) { go func() { results <- bres{i, c.l.BackgroundFetch()} }() }
+	var slow *slowdown
+	if firstNil && n > 1 {
+		slow = &slowdown{dgst: c.dg, reached: make(chan struct{})}
+		c.w.Reg.SetScript(slow.script)
+		call(0)
+		select {
+		case <-slow.reached:
+		case r0 := <-results:
+			results <- r0 // nothing had to be fetched: the first caller is already back
+		case <-time.After(3 * time.Minute):
+		}
+		for i := 1; i < n; i++ {
+			call(i)
+		}
+	} else {
+		for i := 0; i < n; i++ {
+			call(i)
+		}
+	}
+	down, downBy := false, -1
+	defer func() {
+		if down {
+			c.w.Reg.SetDown(false)
+		}
+	}()
+	got := 0
+	timeout := time.After(5 * time.Minute)
+	for got < n {
+		select {
+		case r := <-results:
+			errs[r.i] = r.err
+			got++
+			if firstNil && !down && r.err == nil && got == 1 {
+				c.w.Reg.SetDown(true)
+				down, downBy = true, r.i
+			}
+			if firstNil && !down && r.err != nil && got == 1 {
+				firstNil = false // the first thing that happened is a failure: handled below
+			}
+		case <-timeout:
+			c.r.Inconclusive("watchdog: BackgroundFetch did not return")
+			close(stopPrio)
+			return
+		}
+	}
+	if slow != nil {
+		c.w.Reg.SetScript(nil)
+		c.count("bgfetch_staggered_callers", 1)
 	}
 	close(stopPrio)
 	prioWG.Wait()
@@ -1070,8 +1158,13 @@ func (c *kase) bgPhase() {
 		hits = inj.hits.Load()
 	}
 	berr := firstErr(errs)
+	if down {
+		// completion was claimed by caller downBy; what the others report after the registry
+		// was switched off does not take that claim back
+		berr = nil
+	}
 	log := c.forDigest(lx.Since(c.w.Reg, mark))
-	c.step("BackgroundFetch(callers=%d,priobursts=%d,fault=%d/%s hits=%d)->%v [%d requests]", n, c.cfg.PrioBursts, c.cfg.FaultK, c.cfg.FaultMode, hits, berr, len(log))
+	c.step("BackgroundFetch(callers=%d,priobursts=%d,fault=%d/%s hits=%d,first-nil-by=%d)->%v %v [%d requests]", n, c.cfg.PrioBursts, c.cfg.FaultK, c.cfg.FaultMode, hits, downBy, berr, errs, len(log))
 	c.count("bgfetch_calls", n)
 	c.count("bgfetch_requests", len(log))
 	if berr != nil {
@@ -1090,9 +1183,12 @@ func (c *kase) bgPhase() {
 	if !c.verify() || !c.drain() {
 		return
 	}
-	// D: registry unreachable, fresh root node, every regular file in full
-	c.w.Reg.SetDown(true)
-	defer c.w.Reg.SetDown(false)
+	// D: registry unreachable (already, when a first nil return switched it off), fresh root
+	// node, every regular file in full
+	if !down {
+		c.w.Reg.SetDown(true)
+		defer c.w.Reg.SetDown(false)
+	}
 	root, rerr := lx.Root(c.l)
 	if rerr != nil {
 		c.violate("bgfetch:offline-read:"+rerr.Class, "cannot get the root node with the registry down after a successful BackgroundFetch: "+rerr.Detail)
@@ -1107,7 +1203,13 @@ func (c *kase) bgPhase() {
 			if c.cfg.PrioBursts > 0 {
 				ctx = ":under-prioritized-tasks"
 			}
-			c.violate("bgfetch:offline-read:"+rerr.Class+ctx, fmt.Sprintf("BackgroundFetch returned nil (%d caller(s)), write-behind drained, registry down: regular file cannot be read in full: %v", n, rerr))
+			if down && n > 1 && downBy != 0 {
+				ctx += ":nil-to-a-later-caller"
+			}
+			if c.phase2Hit {
+				ctx += ":after-prefetch-failed-in-decompress-phase"
+			}
+			c.violate("bgfetch:offline-read:"+rerr.Class+ctx, fmt.Sprintf("BackgroundFetch returned nil (%d caller(s), first nil return by caller %d), write-behind drained, registry down: regular file cannot be read in full: %v", n, downBy, rerr))
 			if bad > 2 {
 				break
 			}
